@@ -41,11 +41,12 @@ type c18Config struct {
 	MDNS        bool
 	Mux         string
 	StunMode    string
+	ViaConfig   bool // agent built from an AgentConfig struct instead of options
 }
 
 func (c c18Config) String() string {
-	return fmt.Sprintf("ifaces=%+v types=%v nets=%v(set=%v) ports=%d-%d ifaceReject=%v ipReject=%v loopback=%v mdns=%v mux=%q stun=%s",
-		c.Ifaces, c.Types, c.NetTypes, c.NetTypesSet, c.PortMin, c.PortMax, c.IfaceReject, c.IPReject, c.Loopback, c.MDNS, c.Mux, c.StunMode)
+	return fmt.Sprintf("ifaces=%+v types=%v nets=%v(set=%v) ports=%d-%d ifaceReject=%v ipReject=%v loopback=%v mdns=%v mux=%q stun=%s viaConfig=%v",
+		c.Ifaces, c.Types, c.NetTypes, c.NetTypesSet, c.PortMin, c.PortMax, c.IfaceReject, c.IPReject, c.Loopback, c.MDNS, c.Mux, c.StunMode, c.ViaConfig)
 }
 
 func c18ConfigGen() *rapid.Generator[c18Config] {
@@ -111,6 +112,7 @@ func c18ConfigGen() *rapid.Generator[c18Config] {
 		c.MDNS = rapid.IntRange(0, 4).Draw(t, "mdns") == 0
 		c.Mux = rapid.SampledFrom([]string{"", "", "", "udp", "tcp"}).Draw(t, "mux")
 		c.StunMode = rapid.SampledFrom([]string{"now", "now", "never"}).Draw(t, "stun")
+		c.ViaConfig = rapid.IntRange(0, 2).Draw(t, "viaAgentConfig") == 0
 
 		return c
 	})
@@ -228,7 +230,43 @@ func newC18World(cfg c18Config) (*c18World, error) {
 		w.tcpMux = &fnCountingTCPMux{inner: NewTCPMuxDefault(TCPMuxParams{Listener: w.ln, Logger: lf.NewLogger("mux"), ReadBufferSize: 8})}
 		opts = append(opts, WithTCPMux(w.tcpMux))
 	}
-	a, err := NewAgentWithOptions(opts...)
+	var (
+		a   *Agent
+		err error
+	)
+	if cfg.ViaConfig {
+		// the same configuration through the AgentConfig struct (NewAgent)
+		tmo := 40 * time.Millisecond
+		ac := &AgentConfig{
+			Net: w.fn, LoggerFactory: lf, MulticastDNSMode: MulticastDNSModeDisabled, CandidateTypes: cfg.Types, STUNGatherTimeout: &tmo,
+			PortMin: cfg.PortMin, PortMax: cfg.PortMax, IncludeLoopback: cfg.Loopback,
+		}
+		if cfg.NetTypesSet {
+			ac.NetworkTypes = cfg.NetTypes
+		}
+		if len(cfg.IfaceReject) > 0 {
+			ac.InterfaceFilter = func(n string) bool { return !cfg.IfaceReject[n] }
+		}
+		if len(cfg.IPReject) > 0 {
+			ac.IPFilter = func(ip net.IP) bool {
+				a, _ := netip.AddrFromSlice(ip)
+
+				return !cfg.IPReject[a.Unmap().String()]
+			}
+		}
+		if hasType(cfg.Types, CandidateTypeServerReflexive) {
+			ac.Urls = []*stun.URI{{Scheme: stun.SchemeTypeSTUN, Host: "198.51.100.1", Port: 3478, Proto: stun.ProtoTypeUDP}}
+		}
+		if w.udpMux != nil {
+			ac.UDPMux = w.udpMux
+		}
+		if w.tcpMux != nil {
+			ac.TCPMux = w.tcpMux
+		}
+		a, err = NewAgent(ac)
+	} else {
+		a, err = NewAgentWithOptions(opts...)
+	}
 	if err != nil {
 		return nil, err
 	}
